@@ -402,6 +402,22 @@ example : TWF (Hts.Props.C04.tbxBuilt {} Hts.Props.C04.exTbx) :=
   tabix_built_wf {} ⟨by decide, by decide, by decide, by decide, by decide, by decide⟩ Hts.Props.C04.exTbx
     (by decide) (by decide) (by decide) (by decide) (by decide)
 
+/-- an EMPTY reference name (a lone NUL in the name block) is inside the quantifier of `tabix_read_write` and
+`tabix_roundtrip_built`: names `["c", "", "d"]` -/
+def exTbxEmptyName : List Tabix.TRec :=
+  [ ⟨[99], 100, 200, ⟨0, 150⟩, true, true⟩, ⟨[], 5, 40000, ⟨150, 200⟩, true, true⟩,
+    ⟨[100], 7, 9, ⟨200, 250⟩, true, false⟩ ]
+example : (Hts.Props.C04.tbxBuilt {} exTbxEmptyName).names = [[99], [], [100]] := by decide
+example : readTabix (writeTabix (Hts.Props.C04.tbxBuilt {} exTbxEmptyName)) =
+    .ok (normTabix (Hts.Props.C04.tbxBuilt {} exTbxEmptyName)) :=
+  (tabix_roundtrip_built {} ⟨by decide, by decide, by decide, by decide, by decide, by decide⟩ exTbxEmptyName
+    (by decide) (by decide) (by decide) (by decide) (by decide)).1
+/-- the single-name list `[""]` -/
+example : readTabix (writeTabix (Hts.Props.C04.tbxBuilt {} [⟨[], 5, 9, ⟨0, 10⟩, true, true⟩])) =
+    .ok (normTabix (Hts.Props.C04.tbxBuilt {} [⟨[], 5, 9, ⟨0, 10⟩, true, true⟩])) :=
+  (tabix_roundtrip_built {} ⟨by decide, by decide, by decide, by decide, by decide, by decide⟩ _
+    (by decide) (by decide) (by decide) (by decide) (by decide)).1
+
 /-- a version-1 CSI index with auxiliary bytes is representable as well -/
 example : CWF (Csi.addAll Coord.reg2bin { aux := [1, 2, 3], version := 1, minShift := 4, depth := 2 }
     Hts.Props.C04.exCsi).1 :=
